@@ -292,6 +292,30 @@ Theorem C16_ostall_scenario :
 Proof. exact ostall_scenario_code. Qed.
 Print Assumptions C16_ostall_scenario.
 
+(* ---------------------------------------------------------------- stale handles
+   The protocol code keeps permit handles and releases through them more than once (handleOffer: "release permit fast",
+   then the deferred call).  For ANY sequence of Get and Release calls, Release through any handle ever handed out and any
+   number of times: no semaphore panic, slots in use = handles not yet released <= limit after every step (a repeated
+   Release through an old handle frees nothing, whatever was handed out in between), Get fails exactly at the limit. *)
+Theorem C16_stale_handles_harmless : forall limit ops,
+  exists l, pops_run limit ops (0, []) = Ok l /\ Forall (fun x => snd x <= limit) l.
+Proof. intros. apply stale_handles_harmless. split; [reflexivity | cbn; lia]. Qed.
+Print Assumptions C16_stale_handles_harmless.
+
+Theorem C16_stale_handle_step : forall limit st o, pinv limit st ->
+  exists c hs ok, pop_step limit st o = Ok (c, hs, ok) /\ c = N.of_nat (n_live hs) /\ c <= limit /\
+    (o = PopGet -> (ok = true <-> fst st < limit)).
+Proof. exact get_after_stale_release. Qed.
+Print Assumptions C16_stale_handle_step.
+
+(* the call sequence of two overlapping inbound transfers under limit 1: A released, B acquired, A released AGAIN
+   (A's deferred call): B still holds the only slot, the next Get fails *)
+Theorem C16_stale_release_example :
+  pops_run 1 [PopGet; PopRelease 0; PopGet; PopRelease 0; PopGet; PopRelease 1; PopGet] (0, []) =
+  Ok [(true, 1); (true, 0); (true, 1); (true, 1); (false, 1); (true, 0); (true, 1)].
+Proof. exact stale_release_example. Qed.
+Print Assumptions C16_stale_release_example.
+
 Example C16_nonvacuous :
   out_events true (OGot (PWorker STalkErr)) = [Acquire; Release] /\
   out_events false (OGot (PWorker STalkErr)) = [Acquire] /\
